@@ -22,7 +22,7 @@ TMAX = datetime.datetime(2300,1,1)
 microsecond = datetime.timedelta(microseconds = 1)
 DAY = datetime.timedelta(days = 1)
 iso = re.compile('^[0-9]{4}-[0-9]{2}-[0-9]{2}T')
-ambiguity = re.compile(r'^[0-9]{1,2}\s*[-/ .]\s*[0-9]{1,2}\s*[-/ .]\s*[0-9]{2,4}') # blanks around the separators are fine with dateutil
+ambiguity = re.compile(r'^([0-9]{1,2})\s*[-/ .]\s*([0-9]{1,2})\s*[-/ .]\s*([0-9]{2,4})') # two numbers and a year, blanks allowed around the separators
 futcodes = list('fghjkmnquvxz'.upper())
 months = ['jan', 'feb', 'mar', 'apr', 'may', 'jun', 'jul', 'aug', 'sep', 'oct', 'nov', 'dec']
 yyyymm = re.compile('^[0-9]{4}[-/ .][0-9]{1,2}$')
@@ -296,7 +296,7 @@ def uk2dt(t, tzinfo = None):
         return NaT
     elif t.lower() == 'now':
         return datetime.datetime.now()
-    t = t.strip() # the dialect tests below look at the first characters of the text
+    t = ambiguity.sub(r'\1/\2/\3', t.strip()) # the dialect tests below look at the first characters of the text; dateutil reads '13.01 2000', '13-01.2000' or '13/01/ 2000' as something else or not at all, so it gets 13/01/2000
     res = parser.parse(t)
     if ambiguity.search(t) is not None:
         if res.day<13:
@@ -315,7 +315,7 @@ def us2dt(t, tzinfo = None):
         return NaT
     elif t.lower() == 'now':
         return datetime.datetime.now()
-    t = t.strip() # the dialect test below looks at the first characters of the text
+    t = ambiguity.sub(r'\1/\2/\3', t.strip()) # the dialect test below looks at the first characters of the text; dateutil reads '01.13 2000', '01-13.2000' or '01/13/ 2000' as something else or not at all, so it gets 01/13/2000
     res = parser.parse(t)
     if ambiguity.search(t) is not None and res.month != int(t[:2].replace('-','').replace('/','').replace('.','')):
         raise ValueError('the date is not in US format')
